@@ -82,7 +82,8 @@ def make_payload(p: int, fid: int, big: bool = False, missing: str | None = None
         t.flight_id = fid
     if extras:
         t.vx = np.arange(n, dtype=float)
-        t.vm = 5.0 if extras == "alt" else 5
+        if missing != 'vm':
+            t.vm = 5.0 if extras == "alt" else 5
     return t
 
 
@@ -200,6 +201,9 @@ class StoreRunner:
                 has_ids = self.spec_indexable
                 if arg == 'missing_required':
                     t = make_payload(9, 99 if has_ids else 0, self.big, missing='starting_mass', extras=self.extras)
+                elif arg == 'missing_required_other':
+                    # the required scalar of the second field set where the store has one, else another base value
+                    t = make_payload(9, 99 if has_ids else 0, self.big, missing='vm' if self.extras else 'total_fuel_mass', extras=self.extras)
                 elif arg == 'fieldset_mismatch':
                     t = make_payload(9, 99 if has_ids else 0, self.big, extras=not self.extras)
                 elif arg == 'fieldset_redefined':
